@@ -38,14 +38,16 @@ def hexVal (c : Char) : Option Nat :=
   else if 'A' ≤ c ∧ c ≤ 'F' then some (c.toNat - 55)
   else none
 
-def ofHexChars : List Char → Option Bytes
-  | [] => some []
-  | [_] => none
-  | a :: b :: rest => do
-    let x ← hexVal a
-    let y ← hexVal b
-    let r ← ofHexChars rest
-    pure (UInt8.ofNat (x * 16 + y) :: r)
+def ofHexAux : List Char → Array UInt8 → Option (Array UInt8)
+  | [], acc => some acc
+  | [_], _ => none
+  | a :: b :: rest, acc =>
+    match hexVal a, hexVal b with
+    | some x, some y => ofHexAux rest (acc.push (UInt8.ofNat (x * 16 + y)))
+    | _, _ => none
+
+/-- tail-recursive (megabyte payloads arrive on one protocol line) -/
+def ofHexChars (cs : List Char) : Option Bytes := (ofHexAux cs #[]).map Array.toList
 
 /-- "-" denotes the empty byte string in the line protocol. -/
 def ofHex (s : String) : Option Bytes :=
